@@ -1,8 +1,13 @@
-// h_C11.cpp — harness for C11: operation sequences on real GaussianMixture /
-// Gaussian / ParticleSet objects.  Case: kind gm | gauss | pset, meta c l ci q
-// ctor (constructor arguments and overload), word ops (tokens, see props/C11.py),
-// mat <name> (+ int <name>.r, <name>.c) for every noise covariance.  After the
-// constructor (step 0) and after every operation: every public descriptor, every
+// h_C11.cpp — harness for C11: operation sequences on a pool of real
+// GaussianMixture / Gaussian / ParticleSet objects.  Case: kind gm | gauss | pset,
+// meta c l ci q ctor (constructor arguments and overload of slot 0), word pool
+// (layouts c,l,ci,q of the further slots), word ops (tokens, see props/C11.py),
+// mat <name> (+ int <name>.r, <name>.c) for every noise covariance.  Upper-case
+// tokens act on the object in focus; lower-case tokens are the special member
+// functions between slots / from temporaries (called through references to the
+// library class, as user code does) and move the focus to their target.  After the
+// constructor (step 0) and after every operation, for the object in focus
+// ("<k>.slot"): every public descriptor, every
 // storage matrix with its real dimensions (subclass exposing the protected
 // members) and the views taken through EVERY public accessor overload (block and
 // element, const and non-const, whole-matrix), plus the overloads that rely on
@@ -42,6 +47,8 @@ struct XGM : public GaussianMixture {
     XGM(std::size_t c, std::size_t l, std::size_t ci) : GaussianMixture(c, l, ci) {}   // default use_quaternion
     XGM(std::size_t c, std::size_t d) : GaussianMixture(c, d) {}
     XGM() : GaussianMixture() {}
+    XGM(const GaussianMixture& g) : GaussianMixture(g) {}
+    XGM(GaussianMixture&& g) : GaussianMixture(std::move(g)) {}
     MatrixXd& M() { return mean_; }
     MatrixXd& C() { return covariance_; }
     VectorXd& W() { return weight_; }
@@ -51,6 +58,8 @@ struct XG : public Gaussian {
     XG(std::size_t l, std::size_t ci) : Gaussian(l, ci) {}                              // default use_quaternion
     explicit XG(std::size_t l) : Gaussian(l) {}
     XG() : Gaussian() {}
+    XG(const Gaussian& g) : Gaussian(g) {}
+    XG(Gaussian&& g) : Gaussian(std::move(g)) {}
     MatrixXd& M() { return mean_; }
     MatrixXd& C() { return covariance_; }
     VectorXd& W() { return weight_; }
@@ -61,6 +70,7 @@ struct XPS : public ParticleSet {
     XPS(std::size_t c, std::size_t d) : ParticleSet(c, d) {}
     XPS() : ParticleSet() {}
     XPS(const ParticleSet& p) : ParticleSet(p) {}
+    XPS(ParticleSet&& p) : ParticleSet(std::move(p)) {}
     MatrixXd& M() { return mean_; }
     MatrixXd& C() { return covariance_; }
     VectorXd& W() { return weight_; }
@@ -94,6 +104,48 @@ static long fill_gm(GaussianMixture& g, long b) {
     Ref<VectorXd> w = g.GaussianMixture::weight();
     for (long i = 0; i < w.size(); i++) w(i) = double(b + i);
     return b + w.size();
+}
+
+// ... through the NON-CONST ELEMENT accessors of every component: mean(i, j), covariance(i, j, k), weight(i)
+static void fill_el_gm(GaussianMixture& g, long b) {
+    const long n = g.components, d = g.dim, v = g.dim_covariance;
+    for (long i = 0; i < n; i++) for (long j = 0; j < d; j++) g.GaussianMixture::mean(i, j) = double(b + i * d + j);
+    b += d * n;
+    for (long i = 0; i < n; i++) for (long k = 0; k < v; k++) for (long j = 0; j < v; j++)
+        g.GaussianMixture::covariance(i, j, k) = double(b + (i * v + k) * v + j);
+    b += v * v * n;
+    for (long i = 0; i < n; i++) g.GaussianMixture::weight(i) = double(b + i);
+}
+// ... through the NON-CONST BLOCK accessors: mean(i) = column, covariance(i) = block (weight(i) has no block form)
+static void fill_blk_gm(GaussianMixture& g, long b) {
+    const long n = g.components, d = g.dim, v = g.dim_covariance;
+    const long nm = d * n, nc = v * v * n;
+    for (long i = 0; i < n; i++) {
+        VectorXd col(d);
+        for (long r = 0; r < d; r++) col(r) = double(b + i * d + r);
+        g.GaussianMixture::mean(i) = col;
+        MatrixXd blk(v, v);
+        for (long k = 0; k < v; k++) for (long r = 0; r < v; r++) blk(r, k) = double(b + nm + (i * v + k) * v + r);
+        g.GaussianMixture::covariance(i) = blk;
+        g.GaussianMixture::weight(i) = double(b + nm + nc + i);
+    }
+}
+// a one-component Gaussian: its own accessors mean(j), covariance(j, k), weight() / mean(), covariance()
+static void fill_el_gauss(Gaussian& g, long b) {
+    const long d = g.dim, v = g.dim_covariance;
+    for (long j = 0; j < d; j++) g.mean(j) = double(b + j);
+    for (long k = 0; k < v; k++) for (long j = 0; j < v; j++) g.covariance(j, k) = double(b + d + k * v + j);
+    g.weight() = double(b + d + v * v);
+}
+static void fill_blk_gauss(Gaussian& g, long b) {
+    const long d = g.dim, v = g.dim_covariance;
+    VectorXd col(d);
+    for (long r = 0; r < d; r++) col(r) = double(b + r);
+    g.mean() = col;
+    MatrixXd blk(v, v);
+    for (long k = 0; k < v; k++) for (long r = 0; r < v; r++) blk(r, k) = double(b + d + k * v + r);
+    g.covariance() = blk;
+    g.weight() = double(b + d + v * v);
 }
 
 template <class X>
@@ -172,6 +224,23 @@ static bool dump_acc(int k, X& g) {
     vf::out_mat(P(k, "emean"), emean);
     vf::out_mat(P(k, "ecov"), ecov);
     bad.out(k, "acc_bad");
+    // the parts the algorithms address through dim_noise: head / tail of the mean, corners of the covariance
+    const long dn = b.dim_noise;
+    const bool parts_ok = dn <= d && dn <= dc && g.M().rows() == d && g.C().rows() == dc;
+    vf::out_int(P(k, "parts_oob"), parts_ok ? 0 : 1);
+    if (parts_ok) {
+        MatrixXd smean(d - dn, n), nmean(dn, n), scov(dc - dn, (dc - dn) * n), ncov(dn, dn * n);
+        for (long i = 0; i < n; i++) {
+            smean.col(i) = cb.GaussianMixture::mean(i).head(d - dn);
+            nmean.col(i) = b.GaussianMixture::mean(i).tail(dn);
+            scov.middleCols((dc - dn) * i, dc - dn) = cb.GaussianMixture::covariance(i).topLeftCorner(dc - dn, dc - dn);
+            ncov.middleCols(dn * i, dn) = b.GaussianMixture::covariance(i).bottomRightCorner(dn, dn);
+        }
+        vf::out_mat(P(k, "smean"), smean);
+        vf::out_mat(P(k, "nmean"), nmean);
+        vf::out_mat(P(k, "scov"), scov);
+        vf::out_mat(P(k, "ncov"), ncov);
+    }
     return true;
 }
 
@@ -239,15 +308,46 @@ static bool dump_ps(int k, XPS& p, int ret) {
     vf::out_mat(P(k, "astate"), astate);
     vf::out_mat(P(k, "estate"), estate);
     bad.out(k, "sacc_bad");
+    const long dn = p.dim_noise;
+    if (dn <= d && p.St().rows() == d) {
+        MatrixXd sstate(d - dn, n), nstate(dn, n);
+        for (long i = 0; i < n; i++) {
+            sstate.col(i) = cb.state(i).col(0).head(d - dn);
+            nstate.col(i) = b.state(i).col(0).tail(dn);
+        }
+        vf::out_mat(P(k, "sstate"), sstate);
+        vf::out_mat(P(k, "nstate"), nstate);
+    }
     return true;
 }
 
-static long fill_ps(XPS& p, long b) {
+static long fill_ps(ParticleSet& p, long b) {
     b = fill_gm(p, b);
     Ref<MatrixXd> s = p.state();
     for (long j = 0; j < s.cols(); j++) for (long i = 0; i < s.rows(); i++) s(i, j) = double(b + j * s.rows() + i);
     return b;
 }
+
+static void fill_el_ps(ParticleSet& p, long b) {
+    fill_el_gm(p, b);
+    const long n = p.components, d = p.dim, v = p.dim_covariance;
+    b += d * n + v * v * n + n;
+    for (long i = 0; i < n; i++) for (long j = 0; j < d; j++) p.state(i, j) = double(b + i * d + j);
+}
+static void fill_blk_ps(ParticleSet& p, long b) {
+    fill_blk_gm(p, b);
+    const long n = p.components, d = p.dim, v = p.dim_covariance;
+    b += d * n + v * v * n + n;
+    for (long i = 0; i < n; i++) {
+        VectorXd col(d);
+        for (long r = 0; r < d; r++) col(r) = double(b + i * d + r);
+        p.state(i) = col;
+    }
+}
+static void do_fill_el(XGM& g, long b) { fill_el_gm(g, b); }
+static void do_fill_blk(XGM& g, long b) { fill_blk_gm(g, b); }
+static void do_fill_el(XG& g, long b) { if (g.components == 1) fill_el_gauss(g, b); else fill_el_gm(g, b); }
+static void do_fill_blk(XG& g, long b) { if (g.components == 1) fill_blk_gauss(g, b); else fill_blk_gm(g, b); }
 
 // an operation outside the model's premises: returns false if this build cannot detect the failure
 // (the sequence then stops with "skipped k"); otherwise announces it and lets the caller execute it
@@ -284,20 +384,176 @@ static void do_base_resize(XG& g, const std::vector<long>& v) {
 }
 static void do_base_resize(XGM&, const std::vector<long>&) { std::fprintf(stderr, "BFL_VERIF_HARNESS B on a mixture\n"); std::exit(3); }
 
+// ---------------------------------------------------------------- the pool of objects
+template <class X> struct BaseOf;
+template <> struct BaseOf<XGM> { typedef GaussianMixture type; };
+template <> struct BaseOf<XG> { typedef Gaussian type; };
+template <> struct BaseOf<XPS> { typedef ParticleSet type; };
+
+template <class X> struct Pool {
+    std::vector<std::unique_ptr<X>> s;
+    long cur = 0;
+    X& at(long i) {
+        if (i < 0 || size_t(i) >= s.size() || !s[i]) { std::fprintf(stderr, "BFL_VERIF_HARNESS bad slot %ld\n", i); std::exit(3); }
+        return *s[i];
+    }
+    void put(long i, std::unique_ptr<X> n) { at(i); s[i] = std::move(n); }
+    X& focus() { return at(cur); }
+};
+
+static XGM* construct(XGM*, long c, long l, long ci, bool q) { return new XGM(c, l, ci, q); }
+static XG* construct(XG*, long, long l, long ci, bool q) { return new XG(l, ci, q); }
+static XPS* construct(XPS*, long c, long l, long ci, bool q) { return new XPS(c, l, ci, q); }
+
+// temporaries: a constructor call, and functions that return an object by value
+static GaussianMixture make_temp(GaussianMixture*, long c, long l, long ci, bool q) { return GaussianMixture(c, l, ci, q); }
+static Gaussian make_temp(Gaussian*, long, long l, long ci, bool q) { return Gaussian(l, ci, q); }
+static ParticleSet make_temp(ParticleSet*, long c, long l, long ci, bool q) { return ParticleSet(c, l, ci, q); }
+static GaussianMixture make_filled(GaussianMixture*, long c, long l, long ci, bool q, long b) { GaussianMixture g(c, l, ci, q); fill_gm(g, b); return g; }
+static Gaussian make_filled(Gaussian*, long, long l, long ci, bool q, long b) { Gaussian g(l, ci, q); fill_gm(g, b); return g; }
+static ParticleSet make_filled(ParticleSet*, long c, long l, long ci, bool q, long b) { ParticleSet p(c, l, ci, q); fill_ps(p, b); return p; }
+// what UKF-like code does: take a belief, modify a copy of it, hand it back by value
+template <class B> static B augmented(const B& s, const MatrixXd& q) { B tmp(s); tmp.augmentWithNoise(q); return tmp; }
+static GaussianMixture resized(const GaussianMixture& s, long c, long l, long ci) { GaussianMixture tmp(s); tmp.resize(c, l, ci); return tmp; }
+static Gaussian resized(const Gaussian& s, long, long l, long ci) { Gaussian tmp(s); tmp.resize(l, ci); return tmp; }
+static ParticleSet resized(const ParticleSet& s, long c, long l, long ci) { ParticleSet tmp(s); tmp.resize(c, l, ci); return tmp; }
+
+static std::vector<std::string> fields(const std::string& s) {
+    std::vector<std::string> v; std::stringstream ss(s); std::string t;
+    while (std::getline(ss, t, ',')) v.push_back(t);
+    return v;
+}
+
+// The special member functions between the objects of the pool and from temporaries, for all three classes.
+// Returns 0 if the token is not one of them, 1 if it was executed (focus = its target), -1 if the sequence stops.
 template <class X>
-static void run_gm(const vf::Case& c, std::unique_ptr<X> g, void (*extra)(int, X&)) {
+static int pool_op(const vf::Case& c, const std::string& tok, int k, Pool<X>& pl, int& ret) {
+    typedef typename BaseOf<X>::type B;
+    B* const tag = nullptr;
+    const std::string rest = tok.substr(1);
+    switch (tok[0]) {
+    case '@': { auto v = ints(rest); pl.at(v.at(0)); pl.cur = v[0]; return 1; }
+    case 'c': {                                                       // X n(s), replacing t
+        auto v = ints(rest);
+        std::unique_ptr<X> n;
+        { vf::Entry e("copy-constructor"); n.reset(new X(pl.at(v.at(1)))); }
+        pl.put(v.at(0), std::move(n)); pl.cur = v[0]; return 1;
+    }
+    case 'm': {                                                       // X n(std::move(s)), replacing t
+        auto v = ints(rest);
+        std::unique_ptr<X> n;
+        { vf::Entry e("move-constructor"); n.reset(new X(std::move(pl.at(v.at(1))))); }
+        pl.put(v.at(0), std::move(n)); pl.cur = v[0]; return 1;
+    }
+    case 's': {                                                       // t = s (t == s: self-assignment)
+        auto v = ints(rest);
+        B& T = pl.at(v.at(0)); const B& Sx = pl.at(v.at(1));
+        vf::Entry e("copy-assignment");
+        B& r = (T = Sx); ret = (&r == &T) ? 1 : -1;
+        pl.cur = v[0]; return 1;
+    }
+    case 'v': {                                                       // t = std::move(s)
+        auto v = ints(rest);
+        B& T = pl.at(v.at(0)); B& Sx = pl.at(v.at(1));
+        vf::Entry e("move-assignment");
+        B& r = (T = std::move(Sx)); ret = (&r == &T) ? 1 : -1;
+        pl.cur = v[0]; return 1;
+    }
+    case 't': {                                                       // t = X(...) / t = f() returning a filled object
+        auto v = ints(rest);
+        B& T = pl.at(v.at(0));
+        vf::Entry e("assignment-from-temporary");
+        B& r = v.at(5) < 0 ? (T = make_temp(tag, v.at(1), v.at(2), v.at(3), v.at(4) != 0))
+                           : (T = make_filled(tag, v.at(1), v.at(2), v.at(3), v.at(4) != 0, v.at(5)));
+        ret = (&r == &T) ? 1 : -1;
+        pl.cur = v[0]; return 1;
+    }
+    case 'n': {                                                       // X n(f()), replacing t
+        auto v = ints(rest);
+        std::unique_ptr<X> n;
+        { vf::Entry e("construction-from-temporary");
+          if (v.at(5) < 0) n.reset(new X(make_temp(tag, v.at(1), v.at(2), v.at(3), v.at(4) != 0)));
+          else n.reset(new X(make_filled(tag, v.at(1), v.at(2), v.at(3), v.at(4) != 0, v.at(5)))); }
+        pl.put(v.at(0), std::move(n)); pl.cur = v[0]; return 1;
+    }
+    case 'f': case 'a': {                                             // t = augmented(s, Q) / named augmented copy, t = copy
+        auto f = fields(rest);
+        const long t = std::stol(f.at(0)), sidx = std::stol(f.at(1));
+        MatrixXd q = getq(c, f.at(2));
+        B& T = pl.at(t); const B& Sx = pl.at(sidx);
+        if (augment_outside(Sx, q)) { vf::out_int("skipped", k); return -1; }
+        if (tok[0] == 'f') { vf::Entry e("assignment-from-function-result"); B& r = (T = augmented<B>(Sx, q)); ret = (&r == &T) ? 1 : -1; }
+        else { B tmp(Sx); tmp.augmentWithNoise(q); vf::Entry e("copy-assignment"); B& r = (T = tmp); ret = (&r == &T) ? 1 : -1; }
+        pl.cur = t; return 1;
+    }
+    case 'g': case 'b': {                                             // t = resized(s, ...) / named resized copy, t = copy
+        auto v = ints(rest);
+        B& T = pl.at(v.at(0)); const B& Sx = pl.at(v.at(1));
+        if (tok[0] == 'g') { vf::Entry e("assignment-from-function-result"); B& r = (T = resized(Sx, v.at(2), v.at(3), v.at(4))); ret = (&r == &T) ? 1 : -1; }
+        else { B tmp(resized(Sx, v.at(2), v.at(3), v.at(4))); vf::Entry e("copy-assignment"); B& r = (T = tmp); ret = (&r == &T) ? 1 : -1; }
+        pl.cur = v[0]; return 1;
+    }
+    default: return 0;
+    }
+}
+
+// a mixture assigned from objects of the derived classes (the GaussianMixture part is copied / moved)
+static int cross_op(const std::string& tok, Pool<XGM>& pl, int& ret) {
+    const std::string rest = tok.substr(1);
+    if (tok[0] == 'x') {                                              // t = Gaussian(l, ci, q) / t = named Gaussian
+        auto v = ints(rest);
+        GaussianMixture& T = pl.at(v.at(0));
+        if (v.at(4) != 0) { Gaussian g(v.at(1), v.at(2), v.at(3) != 0); vf::Entry e("copy-assignment(GaussianMixture = Gaussian)");
+                            GaussianMixture& r = (T = g); ret = (&r == &T) ? 1 : -1; }
+        else { vf::Entry e("assignment-from-temporary(GaussianMixture = Gaussian)");
+               GaussianMixture& r = (T = Gaussian(v.at(1), v.at(2), v.at(3) != 0)); ret = (&r == &T) ? 1 : -1; }
+        pl.cur = v[0]; return 1;
+    }
+    if (tok[0] == 'y') {                                              // t = f() returning a filled ParticleSet
+        auto v = ints(rest);
+        GaussianMixture& T = pl.at(v.at(0));
+        vf::Entry e("assignment-from-temporary(GaussianMixture = ParticleSet)");
+        GaussianMixture& r = (T = make_filled((ParticleSet*)nullptr, v.at(1), v.at(2), v.at(3), v.at(4) != 0, v.at(5)));
+        ret = (&r == &T) ? 1 : -1;
+        pl.cur = v[0]; return 1;
+    }
+    return 0;
+}
+static int cross_op(const std::string&, Pool<XG>&, int&) { return 0; }
+
+template <class X>
+static void make_pool(const vf::Case& c, Pool<X>& pl, std::unique_ptr<X> first) {
+    pl.s.push_back(std::move(first));
+    for (const std::string& lay : c.word("pool")) {
+        auto v = ints(lay);
+        vf::Entry e("constructor");
+        pl.s.push_back(std::unique_ptr<X>(construct((X*)nullptr, v.at(0), v.at(1), v.at(2), v.at(3) != 0)));
+    }
+}
+
+template <class X>
+static void run_gm(const vf::Case& c, std::unique_ptr<X> g0, void (*extra)(int, X&)) {
     const auto& ops = c.word("ops");
-    dump_fields(0, *g, 1);
-    bool go = dump_acc(0, *g);
-    if (go && extra) extra(0, *g);
+    Pool<X> pl;
+    make_pool(c, pl, std::move(g0));
+    dump_fields(0, pl.focus(), 1);
+    vf::out_int(P(0, "slot"), 0);
+    bool go = dump_acc(0, pl.focus());
+    if (go && extra) extra(0, pl.focus());
     for (size_t k0 = 0; go && k0 < ops.size(); k0++) {
         const std::string& tok = ops[k0];
         const int k = int(k0) + 1;
         const std::string rest = tok.substr(1);
         int ret = 1;
         bool outside = false;
-        switch (tok[0]) {
+        int done = pool_op(c, tok, k, pl, ret);
+        if (done == 0) done = cross_op(tok, pl, ret);
+        if (done < 0) return;
+        std::unique_ptr<X>& g = pl.s[pl.cur];
+        if (done == 0) switch (tok[0]) {
         case 'F': { vf::Entry e("fill"); fill_gm(*g, std::stol(rest)); break; }
+        case 'G': { vf::Entry e("fill-through-element-accessors"); do_fill_el(*g, std::stol(rest)); break; }
+        case 'H': { vf::Entry e("fill-through-block-accessors"); do_fill_blk(*g, std::stol(rest)); break; }
         case 'C': { vf::Entry e("copy-constructor"); std::unique_ptr<X> n(new X(*g)); g = std::move(n); break; }
         case 'M': { vf::Entry e("move-constructor"); std::unique_ptr<X> n(new X(std::move(*g))); g = std::move(n); break; }
         case 'S': { vf::Entry e("copy-assignment"); std::unique_ptr<X> n(new X()); *n = *g; g = std::move(n); break; }
@@ -324,10 +580,12 @@ static void run_gm(const vf::Case& c, std::unique_ptr<X> g, void (*extra)(int, X
         }
         default: std::fprintf(stderr, "BFL_VERIF_HARNESS bad op %s\n", tok.c_str()); std::exit(3);
         }
+        X& x = pl.focus();
         if (outside) vf::out_int(P(k, "survived"), 1);
-        dump_fields(k, *g, ret);
-        go = dump_acc(k, *g);
-        if (go && extra) extra(k, *g);
+        dump_fields(k, x, ret);
+        vf::out_int(P(k, "slot"), pl.cur);
+        go = dump_acc(k, x);
+        if (go && extra) extra(k, x);
         if (!go) vf::out_int("stopped", k);
     }
 }
@@ -340,17 +598,25 @@ static bool concat_mismatch(XPS& p, XPS& rhs) {
            || rhs.St().cols() != long(rhs.components) || rhs.W().size() != long(rhs.components);
 }
 
-static void run_ps(const vf::Case& c, std::unique_ptr<XPS> p) {
+static void run_ps(const vf::Case& c, std::unique_ptr<XPS> p0) {
     const auto& ops = c.word("ops");
-    bool go = dump_ps(0, *p, 1);
+    Pool<XPS> pl;
+    make_pool(c, pl, std::move(p0));
+    vf::out_int(P(0, "slot"), 0);
+    bool go = dump_ps(0, pl.focus(), 1);
     for (size_t k0 = 0; go && k0 < ops.size(); k0++) {
         const std::string& tok = ops[k0];
         const int k = int(k0) + 1;
         const std::string rest = tok.substr(1);
         int ret = 1;
         bool outside = false;
-        switch (tok[0]) {
+        int done = pool_op(c, tok, k, pl, ret);
+        if (done < 0) return;
+        std::unique_ptr<XPS>& p = pl.s[pl.cur];
+        if (done == 0) switch (tok[0]) {
         case 'F': { vf::Entry e("fill"); fill_ps(*p, std::stol(rest)); break; }
+        case 'G': { vf::Entry e("fill-through-element-accessors"); fill_el_ps(*p, std::stol(rest)); break; }
+        case 'H': { vf::Entry e("fill-through-block-accessors"); fill_blk_ps(*p, std::stol(rest)); break; }
         case 'C': { vf::Entry e("copy-constructor"); std::unique_ptr<XPS> n(new XPS(*p)); p = std::move(n); break; }
         case 'M': { vf::Entry e("move-constructor"); std::unique_ptr<XPS> n(new XPS(std::move(*p))); p = std::move(n); break; }
         case 'S': { vf::Entry e("copy-assignment"); std::unique_ptr<XPS> n(new XPS()); *n = *p; p = std::move(n); break; }
@@ -393,10 +659,38 @@ static void run_ps(const vf::Case& c, std::unique_ptr<XPS> p) {
             *p += *p;
             break;
         }
+        case 'p': case 'w': {                         // r = a + b (existing r) / ParticleSet n(a + b) replacing r
+            auto v = ints(rest);
+            XPS& A = pl.at(v.at(1)); XPS& Bq = pl.at(v.at(2));
+            outside = concat_mismatch(A, Bq);
+            if (outside && !enter_outside(k, tok, false)) return;
+            if (tok[0] == 'p') {
+                ParticleSet& T = pl.at(v.at(0)); const ParticleSet& a = A; const ParticleSet& b = Bq;
+                vf::Entry e("assignment-from-temporary(operator+)");
+                ParticleSet& r = (T = a + b); ret = (&r == &T) ? 1 : -1;
+            } else {
+                std::unique_ptr<XPS> n;
+                { vf::Entry e("construction-from-temporary(operator+)"); const ParticleSet& a = A; const ParticleSet& b = Bq; n.reset(new XPS(a + b)); }
+                pl.put(v.at(0), std::move(n));
+            }
+            pl.cur = v[0];
+            break;
+        }
+        case 'u': {                                   // t += s for another object s of the pool
+            auto v = ints(rest);
+            XPS& T = pl.at(v.at(0)); XPS& Sx = pl.at(v.at(1));
+            outside = (&T == &Sx && T.components > 0) || concat_mismatch(T, Sx);
+            if (outside && !enter_outside(k, tok, false)) return;
+            { vf::Entry e("ParticleSet::operator+="); ParticleSet& r = (T += Sx); if (&r != &T) ret = -1; }
+            pl.cur = v[0];
+            break;
+        }
         default: std::fprintf(stderr, "BFL_VERIF_HARNESS bad op %s\n", tok.c_str()); std::exit(3);
         }
+        XPS& x = pl.focus();
         if (outside) vf::out_int(P(k, "survived"), 1);
-        go = dump_ps(k, *p, ret);
+        vf::out_int(P(k, "slot"), pl.cur);
+        go = dump_ps(k, x, ret);
         if (!go) vf::out_int("stopped", k);
     }
 }
